@@ -12,17 +12,21 @@ package criteria_bounding
 
 //@ func boundValueInRange
 //@   property C17 C18 C19 C20 C01 C07 C09
+//@   indexsafe
 //@   nopanic
 //@   ensures [clamp] result == clamp2(value, scaledRange.Min, scaledRange.Max)
 //@ func scaleRange
 //@   property C17 C18 C19 C20 C01 C07 C09
+//@   indexsafe
 //@   requires valueRange != nil
 //@   ensures [scaled] result != nil && result.Min == utils.scaledMin(*valueRange, scaling) && result.Max == utils.scaledMax(*valueRange, scaling)
 //@ func (*CriteriaBounding).trimBelowZeroIfRequired
 //@   property C17 C18 C19 C20 C01 C07 C09
+//@   indexsafe
 //@   ensures [trim] result == trimmed(*b, value)
 //@ func (*CriteriaBounding).WithRange
 //@   property C17 C18 C19 C20 C01 C07 C09
+//@   indexsafe
 //@   requires valueRange != nil
 //@   ensures [kept] fresh(result) && result.bounding == b
 //@   ensures [interval] b.AllowedValuesRangeScaling > 0.0 ? (result.valueRange != nil
@@ -30,12 +34,15 @@ package criteria_bounding
 //@              && result.valueRange.Max == utils.scaledMax(*valueRange, b.AllowedValuesRangeScaling)) : result.valueRange == nil
 //@ func (*CriteriaInRangeBounding).BoundValue
 //@   property C17 C18 C19 C20 C01 C07 C09
+//@   indexsafe
 //@   ensures [bounded] result == boundedIn(*b, value)
 //@ func FromParams
 //@   property C17 C18 C19 C20 C01 C07 C09
+//@   indexsafe
 //@   ensures [nonzero] result.AllowedValuesRangeScaling != 0.0 && fresh(result)
 //@ func DefaultParams
 //@   property C17 C18 C19 C20 C01 C07 C09
+//@   indexsafe
 //@   ensures fresh(result) && result.AllowedValuesRangeScaling == -1.0 && !result.DisallowNegativeValues
 
 //@ lemma [C19] clamp_in_interval: forall x real, lo real, hi real
